@@ -83,6 +83,49 @@ def run(ctx):
             raise Inconclusive("loop program rejected by the compiler: %s" % o["err"])
         by_cfg.setdefault(r["cfg"], []).append((r, o))
     ctx.log("loop runs: %d answered, %d usable in %d configurations" % (len(outs), sum(len(v) for v in by_cfg.values()), len(by_cfg)))
+    # ---------------------------------------------------------------- (c') volume runs
+    # many travelers in flight (more than the 50-slot queue channels hold): rows only, compared with the
+    # iterative definition the specification prints for the configuration (no trace validation at this size)
+    vol_cfgs = [C(150, 3), C(40, 3, Fan=2), C(60, 2, NJ=2)] if quick else [C(150, 3), C(400, 4), C(40, 3, Fan=2), C(120, 3, Fan=2), C(60, 2, NJ=2), C(100, 3, NF=1, FT=50)]
+    vreqs = []
+    for ci, c in enumerate(vol_cfgs):
+        for p in ([2, 16] if quick else [1, 2, 4, 16]):
+            for s in (range(2) if quick else range(4)):
+                vreqs.append(dict(i=len(vreqs), cfg=ci, procs=p, jitter=0, seed=ctx.seed * 1000 + s, notrace=True, **c))
+    vinp = ctx.write_ndjson("loopvol_in.ndjson", vreqs)
+    voutp = os.path.join(ctx.scratch, "loopvol_out.ndjson")
+    ctx.harness(["loop", "-j", "4", "-timeout", "120s"], input_path=vinp, output_path=voutp, timeout=3000)
+    vouts = {o["i"]: o for o in ctx.read_ndjson(voutp) if "i" in o}
+    if len(vouts) != len(vreqs):
+        raise Inconclusive("loop harness answered %d of %d volume runs" % (len(vouts), len(vreqs)))
+    vexp = {}
+    for ci, c in enumerate(vol_cfgs):
+        r = ctx.tlc("jumploop", "JumpLoop", "gen.cfg", files={"gen.cfg": cfg_text(c, CAPS1, invs=("TypeOK",), props=())}, simulate="num=1", depth=2,
+                    timeout=600, workers=1, count=False, label="expected rows " + shape(c))
+        if not r.msgs.get("expected"):
+            raise Inconclusive("the specification did not print the expected rows for %s" % shape(c))
+        e = Counter()
+        for x in r.msgs["expected"][0]:
+            e[(x[0], x[1])] += x[2]
+        vexp[ci] = e
+    for r in vreqs:
+        o = vouts[r["i"]]
+        c = vol_cfgs[r["cfg"]]
+        if "died" in o or "harness_err" in o or "wire_err" in o:
+            raise Inconclusive("loop harness failure: %s" % json.dumps({k: o[k] for k in o if k != "trace"})[:300])
+        for bad in ("crash", "hang"):
+            if bad in o:
+                ctx.diverge("loop %s: %s" % (bad, o[bad] if bad == "crash" else "mark/jump traversal with many travelers in flight does not finish"),
+                            "a mark/jump traversal %s" % ("never terminates" if bad == "hang" else "crashes the process"), dict(config=c, run=r, trace=(o.get("trace") or "")[:3000]))
+        if "crash" in o or "hang" in o:
+            continue
+        got = Counter((x[0], x[1]) for x in o.get("rows", []) if isinstance(x, list))
+        if got != vexp[r["cfg"]]:
+            exp = vexp[r["cfg"]]
+            kind = "lost" if (exp - got) and not (got - exp) else ("duplicated" if (got - exp) and not (exp - got) else "lost and duplicated")
+            ctx.diverge("loop result %s travelers (many in flight)" % kind, "the rows returned by a mark/jump traversal with many travelers in flight differ from the iterative definition",
+                        dict(config=c, run=r, expected_rows=sum(exp.values()), got_rows=sum(got.values()), missing=sorted((exp - got).elements())[:10], extra=sorted((got - exp).elements())[:10]))
+    ctx.log("volume runs: %d" % len(vreqs))
     # ---------------------------------------------------------------- (b)+(c) validation
     ntr = [0]
     from concurrent.futures import ThreadPoolExecutor
@@ -105,10 +148,9 @@ def run(ctx):
         res = ctx.tlc("jumploop", "JumpLoopTrace", "trace.cfg", files={"trace.cfg": cfg, "traces.ndjson": "\n".join(lines) + "\n"},
                       workers=1, dfs=True, timeout=1500, expect_violation=True, count=False, label="traces " + shape(c))
         exp = None
-        m = re.search(r'^<<"J", "expected", (".*")>>$', res.out, re.M)
-        if m:
+        if res.msgs.get("expected"):
             exp = Counter()
-            for x in json.loads(json.loads(m.group(1))):
+            for x in res.msgs["expected"][0]:
                 exp[(x[0], x[1])] += x[2]
         # (c) rows against the iterative definition
         for r, o in items:
